@@ -430,7 +430,7 @@ func runC03(w *mon.W) {
 // invocation must be denied.
 func c03Heterogeneous(w *mon.W) {
 	r := w.Rng
-	total := w.Share(w.Pick(2500, 60000))
+	total := w.Share(w.Pick(5000, 80000))
 	for it := 0; it < total; it++ {
 		n := 1 + r.IntN(3)
 		s := chain.Conformant(r, n, 0)
